@@ -77,7 +77,8 @@ def run(ctx):
     for p, f in sorted(P.fns.items()):
         if not p.startswith('ripd::server::'):
             continue
-        g = inline_calls(P, f, lambda body, callee: callee.startswith('ripd::server::') and w(body, callee), depth=2, note=ctx.note)
+        # helpers of the server module, and accessors of the handles (`handle.replay()`), that subscribe / snapshot
+        g = inline_calls(P, f, lambda body, callee: (callee.startswith('ripd::server::') or re.search(r'^ripd::(tasks|runner|session)::\w+Handle::', callee) is not None) and not re.search(r'::(subscribe|events_snapshot)$', callee) and w(body, callee), depth=2, note=ctx.note)
         inl[p] = g
         absorbed |= set(getattr(g, 'inlined_bodies', ()))
     for p, f in sorted(inl.items()):
@@ -92,6 +93,20 @@ def run(ctx):
         if snaps and (subs or serves):
             handlers.append((f, subs, snaps))
     ctx.floor('C06.2', 'stream handlers', len(handlers), 3)
+    ctx.rule('C06.6', 'one cut: after subscribing, a stream handler looks at the emitter\'s shared state exactly once — the history snapshot. No second lock / atomic read of the handle (a seq counter, a status cell) feeds the stream it builds: a bound read in a second critical section is later than the snapshot, and a frame emitted between the two is in neither history nor live.')
+    LOCKS = r'sync::(mutex::)?Mutex::<T>::lock$|sync::(rwlock::)?RwLock::<T>::(read|write)$|sync::poison::(mutex::Mutex|rwlock::RwLock)::<T>::(lock|read|write)$|atomic::Atomic\w+::load$'
+    for f, subs, snaps in handlers:
+        if subs:
+            after_sub = set()
+            for su in subs:
+                after_sub |= f.reach_from_after(su.bb)
+            locks = [s_ for s_ in f.sites() if re.search(LOCKS, s_.callee or '') and s_.bb in after_sub]
+            cuts = [sn for sn in snaps if sn.bb in after_sub] + locks
+            ok6 = len(cuts) <= 1
+            ctx.ob('C06.6', f, 'single-cut', ok6,
+                   'after subscribing the handler looks at shared state once (%s)' % ', '.join(x.name for x in cuts) if ok6 else
+                   'after subscribing the handler reads shared state in %d separate critical sections (%s, lines %s): whatever the later one yields (a next-seq bound, a status) is newer than the history snapshot — a frame emitted in between is dropped by the live filter and missing from history' % (
+                       len(cuts), ', '.join(x.name for x in cuts), [x.line for x in cuts]), line=cuts[-1].line if cuts else f.line)
     for f, subs, snaps in handlers:
         for sn in snaps:
             ok = any(f.dom(su.bb, sn.bb) and su.bb != sn.bb for su in subs)
